@@ -150,6 +150,11 @@ def diffTrees (st : St) (a b : Nat) : String :=
   | _, some .poisoned => "poisoned"
   | _, _ => "bad-op"
 
+/-- The join of the sync model's `Merge.joinMax` at byte strings: the lexicographically larger of the
+two (exactly the former `if old < new then new else old`). Declared here, with high priority, so
+that the driver's results do not depend on which `Max (List _)` instance core happens to provide. -/
+instance (priority := high) instMaxBytes : Max Bytes := ⟨fun o n => if o < n then n else o⟩
+
 def parseMerge (s : String) : Option Merge :=
   if s = "join" then some .joinMax else if s = "peer" then some .peerWins else none
 
